@@ -318,6 +318,29 @@ _more("rpad", [["s", L(14), L("abc"), _P]])
 _more("array_join", [["sa", L(", "), _P]])
 _more("months_between", [["ts", "ts"], ["d", "d"]])
 
+# ---------------------------------------------------------------------------------------------------------------
+# Python-implemented UDFs (sqlframe.base.util.soundex is registered as SOUNDEX on DuckDB): inputs for each rule of the
+# algorithm -- H/W between letters of one code, a vowel between them, a first letter with the code of the second, doubled
+# letters, more than three codes, fewer, lower case, non-letters inside / first, the empty string, a single letter.
+# ---------------------------------------------------------------------------------------------------------------
+def _sx(word, tag):
+    return [E("F.lit(%r)" % word), Tag(tag)]
+
+
+_more("soundex", [_sx(w, "letters") for w in
+                  ("Ashcraft", "Sachs", "bwhp", "Tymczak", "Pfister", "Robert", "Rupert", "Rubin", "Honeyman", "Lloyd", "Jackson",
+                   "ashcraft", "Burroughs", "Wheeler", "Hh", "aeiouy", "A", "z", "BbBb", "Schmidt", "Czarkowska", "Lee", "Kuhne")] +
+                 [_sx(w, "non-letters-inside") for w in ("O'Hara", "Mc-Donald", "A1b2", "ab cd", "S a-c-h s", "Van der Waals")] +
+                 [_sx(w, "non-letter-first") for w in ("123abc", " abc", "-Robert")] + [_sx("", "empty")])
+# slice: a negative start whose window reaches past the end of the array
+_more("slice", [["a", L(-2), L(5), Tag("negative-start")], ["a", L(-3), L(9), Tag("negative-start")], ["a", L(-1), L(3), Tag("negative-start")],
+                ["a", L(-4), L(2), Tag("negative-start")]])
+# levenshtein: threshold equal to / one below / one above the distance (distances of (s, t) are 9, 6, 4, 5, 2)
+_more("levenshtein", [["s", "t", L(9), _B], ["s", "t", L(6), _B], ["s", "t", L(4), _B], ["s", "t", L(5), _B], ["s", "t", L(2), _B], ["s", "t", L(3), _B]])
+# regexp_replace: the Python-side rewriting of group references
+_more("regexp_replace", [["s", L("(l)(o)"), L("$2$1"), Tag("group-reference")], ["s", L("(o)"), L("<$1$1>"), Tag("group-reference")],
+                         ["s", L("o"), L("0"), _P]])
+
 # aggregate groups: every aggregate is evaluated over each of these sub-frames (statistical aggregates special-case small samples)
 AGG_GROUPS = [("5 ordinary rows", lambda F: F.col("id") <= 5), ("the all-NULL row alone", lambda F: F.col("id") == 6),
               ("1 row", lambda F: F.col("id") == 1), ("2 rows", lambda F: F.col("id") <= 2), ("3 rows", lambda F: F.col("id") <= 3)]
